@@ -44,6 +44,10 @@ type cAttempt struct {
 	StreamDelay int64 `json:"stream_delay,omitempty"`
 	Cuts        []int `json:"cuts,omitempty"`
 	ByteReads   bool  `json:"byte_reads,omitempty"`
+	// CancelInCallback k > 0: the callback that receives the k-th event of this attempt ends the request
+	// context; every later Read of the body answers with the context's error, as a network body does.
+	// Events that were already buffered may or may not still be dispatched.
+	CancelInCallback int `json:"cancel_in_callback,omitempty"`
 }
 
 type cBackoff struct {
@@ -150,6 +154,17 @@ type eofWrapErr struct{ n int }
 
 func (e *eofWrapErr) Error() string { return fmt.Sprintf("injected read error #%d wrapping EOF", e.n) }
 func (e *eofWrapErr) Unwrap() error { return io.EOF }
+
+type foreignCtxErr struct {
+	n int
+	e error
+}
+
+func (e *foreignCtxErr) Error() string {
+	return fmt.Sprintf("injected read error #%d: timeout awaiting the body: %v", e.n, e.e)
+}
+func (e *foreignCtxErr) Unwrap() error { return e.e }
+func (e *foreignCtxErr) Timeout() bool { return true }
 
 type readErr struct{ n int }
 
@@ -295,6 +310,7 @@ func runClient(t *testing.T, sc *cScript) (obs *cObs) {
 			req.GetBody = func() (io.ReadCloser, error) { obs.GetBodyCalls++; return orig() }
 		}
 		attempt := -1
+		var cbCancelled atomic.Bool
 		rt := roundTripFunc(func(r *http.Request) (*http.Response, error) {
 			attempt++
 			a := attempt
@@ -395,6 +411,28 @@ func runClient(t *testing.T, sc *cScript) (obs *cObs) {
 				e := &eofWrapErr{a}
 				obs.ReadErrs[a] = e
 				cr.EndErr = e
+			}
+			if sp.End == "rerr_dl" || sp.End == "rerr_cancel" {
+				// what http.Client.Timeout, a transport's own read deadline or a proxy's context produce: an
+				// error that wraps a context error although the request's context is alive
+				var e error = &foreignCtxErr{a, context.DeadlineExceeded}
+				if sp.End == "rerr_cancel" {
+					e = &foreignCtxErr{a, context.Canceled}
+				}
+				obs.ReadErrs[a] = e
+				cr.EndErr = e
+			}
+			if sp.CancelInCallback > 0 && sp.CancelAtOff < 0 {
+				cr.OnRead = func(call, off int) error {
+					if !cbCancelled.Load() {
+						return nil
+					}
+					time.Sleep(1)
+					if bodyClosed.Load() {
+						return errBodyClosed
+					}
+					return ctx.Err()
+				}
 			}
 			if sp.CancelAtOff >= 0 {
 				x := min(sp.CancelAtOff, len(sp.Stream))
@@ -502,8 +540,17 @@ func runClient(t *testing.T, sc *cScript) (obs *cObs) {
 		if sc.BufMax > 0 {
 			conn.Buffer(nil, sc.BufMax)
 		}
+		evAttempt, evInAttempt := -1, 0
 		conn.SubscribeToAll(func(e sse.Event) {
 			obs.Events = append(obs.Events, cEventObs{Attempt: attempt, Ev: obsEvent{strings.Clone(e.LastEventID), strings.Clone(e.Type), strings.Clone(e.Data)}})
+			if attempt != evAttempt {
+				evAttempt, evInAttempt = attempt, 0
+			}
+			evInAttempt++
+			if attempt >= 0 && attempt < len(sc.Attempts) && sc.Attempts[attempt].CancelAtOff < 0 && sc.Attempts[attempt].CancelInCallback == evInAttempt {
+				cbCancelled.Store(true)
+				cancel()
+			}
 		})
 		if sc.CancelBefore {
 			cancel()
@@ -560,7 +607,13 @@ func effBackoff(b cBackoff) (init float64, mult float64, jitter float64) {
 
 // streamOutcome interprets one attempt's stream as the client must.
 type streamOutcome struct {
-	Events  []obsEvent
+	// OptionalFrom > 0: the events from that index (0-based) on may or may not have been dispatched (a
+	// callback ended the context while they were buffered); Ambiguous: the callback that ends the
+	// context gets the event dispatched at the clean end of the stream — both the context and the lost
+	// connection are reasons then, nothing is judged
+	OptionalFrom int
+	Ambiguous    bool
+	Events       []obsEvent
 	LastID  string
 	EndKind string // "eof" | "ueof" | "rerr" | "cancel"
 	Retries []ref.Retry
@@ -575,18 +628,25 @@ func interpretAttempt(a cAttempt, lastID string) streamOutcome {
 	}
 	o := ref.Interpret(data, ref.Opts{Adapt: true, Conn: true, InitialID: lastID})
 	so := streamOutcome{LastID: lastID, Retries: o.Retries}
-	abnormal := cut || a.End == "rerr" || a.End == "rerr_eof" || a.Oversized
+	foreign := a.End == "rerr_dl" || a.End == "rerr_cancel"
+	abnormal := cut || a.End == "rerr" || a.End == "rerr_eof" || foreign || a.Oversized
+	cbCancel := false
 	for _, e := range o.Events {
 		if e.AtEOF && abnormal {
 			continue
 		}
 		so.Events = append(so.Events, obsEvent{e.ID, e.Type, e.Data})
 		so.LastID = e.ID
+		if !cut && a.CancelInCallback == len(so.Events) {
+			cbCancel = true
+			so.OptionalFrom = len(so.Events)
+			so.Ambiguous = e.AtEOF
+		}
 	}
 	switch {
-	case cut:
+	case cut || cbCancel:
 		so.EndKind = "cancel"
-	case a.End == "rerr" || a.End == "rerr_eof" || a.Oversized:
+	case a.End == "rerr" || a.End == "rerr_eof" || foreign || a.Oversized:
 		so.EndKind = "rerr"
 	case o.UnexpectedEOF:
 		so.EndKind = "ueof"
@@ -717,7 +777,13 @@ func judgeClient(sc *cScript, obs *cObs, prop string) (out []jv) {
 			// much later, and a server retry value (parsed after it) restarts the elapsed-time clock there
 			vt += time.Duration(a.StreamDelay)
 			so := interpretAttempt(a, lastID)
-			for _, e := range so.Events {
+			if so.Ambiguous {
+				return nil
+			}
+			for ei, e := range so.Events {
+				if so.OptionalFrom > 0 && ei >= so.OptionalFrom && (evIdx >= len(obs.Events) || obs.Events[evIdx].Attempt != i) {
+					break // buffered events after the callback that ended the context: not dispatched
+				}
 				if prop == "C10" || prop == "C11" || prop == "ALL" {
 					if evIdx >= len(obs.Events) || obs.Events[evIdx].Ev != e || obs.Events[evIdx].Attempt != i {
 						got := "none"
